@@ -134,6 +134,34 @@ theorem monotone_binary (n1 n2 : Nat) (h : n1 ≤ n2) (hn : n2 < 2 ^ 64) :
 theorem rounding_correct (a b : Nat) (ha : 0 < a) (hb : 0 < b) :
     |(rn53 a b).val - (a : ℚ) / b| ≤ (a : ℚ) / b / 2 ^ 53 := rn53_error a b ha hb
 
+/-! ## the remaining statements of `FormatNumber`, REGENERATED
+
+Besides the prefix tables, the switch that chooses the number of decimals, the guard of the
+prefix loop, the guard of the exact branch and the mantissa expression are extracted from
+counts/human.go on every run; the model's `decimals`, `selectPrefix` and `formatNum` are these. -/
+
+/-- the first case `wholePart >= N` that applies decides, else the default -/
+def decimalsOf (cases : List (Nat × Nat)) (dflt : Nat) (w : Nat) : Nat :=
+  match cases.find? (fun c => decide (w ≥ c.1)) with
+  | some c => c.2
+  | none => dflt
+
+/-- the model's `decimals` is the regenerated switch -/
+theorem decimals_regenerated (w : Nat) :
+    decimals w = decimalsOf Gen.Tables.formatCases Gen.Tables.formatDefault w := by
+  unfold decimals decimalsOf Gen.Tables.formatCases Gen.Tables.formatDefault
+  by_cases h1 : w ≥ 100
+  · simp [h1]
+  · by_cases h2 : w ≥ 10
+    · simp [h1, h2]
+    · simp [h1, h2]
+
+/-- loop guard `w >= 1`, exact branch `prefix.Multiplier == 1`, mantissa
+    `float64(n) / float64(prefix.Multiplier)`: what `selectPrefix` / `formatNum` model -/
+theorem format_statements_pinned :
+    Gen.Tables.formatLoopGuard = "w >= 1" ∧ Gen.Tables.formatExactGuard = "prefix.Multiplier == 1" ∧
+    Gen.Tables.formatMantissa = "float64(n) / float64(prefix.Multiplier)" := by decide
+
 /-- recorded finding F11 (kernel-evaluated on the model): the half-unit bound fails for this n ≥ 2^53 -/
 theorem half_unit_witness_F11 :
     formatNum Gen.Tables.metricPrefixes 18445499999999999999 = .scaled 18446 0 ("P", 1000000000000000)
